@@ -84,7 +84,7 @@ ledger_prop('C15', ['C15_shape', 'C15_reverse_postings', 'C15_once', 'C15_neutra
             'Coq proof (shape of the revert from the step function; single revert via the reverted mark; algebraic neutrality of postings ++ reversed postings) + differential run',
             'Unbounded theorems (sequential): a successful revert of T creates one transaction with T\'s postings swapped in reverse order, the revert mark, timestamp T.ts or the revert time; a second revert fails with already-reverted; T plus its revert leave every balance unchanged. Tie: model = real stack; monitor checks shape/mark/timestamp/once on the implementation.',
             'Concurrent reverts (row lock + re-evaluation of reverted_at IS NULL) are covered by the schedule harness. The nil-map panic of a non-forced revert (suspect S-15) is modelled as an explicit Panic outcome.')
-ledger_prop('C17', ['C17_current_tx_metadata', 'C17_merge_last_write_wins', 'C17_delete_removes', 'C17_account_upsert', 'C17_tx_history_revision'],
+ledger_prop('C17', ['C17_current_tx_metadata', 'C17_merge_last_write_wins', 'C17_delete_removes', 'C17_account_upsert', 'C17_tx_history_revision', 'C17_tx_metadata_as_of', 'C17_pit_read_uses_history'],
             'Coq proof (current transaction metadata = replay of saves/deletes in log order; merge/delete algebra; history revision per rewrite) + differential run incl. raw history tables + metadata monitor',
             'Unbounded theorems: current transaction metadata equals creation metadata with saves (last write wins per key) and deletes applied in commit order; account upsert merges over stored metadata; with the history feature every row rewrite appends the new metadata as next revision dated updated_at. Tie: model = real stack on current metadata AND both raw history tables under 5 feature sets.',
             'The point-in-time read queries (as-of-t selection, DISABLED => current) are compared by the PIT read tie (C05 harness); chart default metadata is covered under C29.')
